@@ -31,6 +31,9 @@ REFDIR = os.path.join(HERE, "reference")
 _ref_cache = {}
 
 
+_ref_raw = {}
+
+
 def reference_tree(rel, module_key):
     """canonicalised AST of the reference copy of a module, or None"""
     if rel in _ref_cache:
@@ -39,7 +42,9 @@ def reference_tree(rel, module_key):
     tree = None
     if os.path.exists(p):
         with open(p, "rb") as f:
-            src = f.read().decode("utf8")
+            raw = f.read()
+        _ref_raw[rel] = raw       # the cache key is derived from exactly the bytes that were parsed (the reference may be regenerated while a check runs)
+        src = raw.decode("utf8")
         try:
             tree = ast.parse(src)
             from . import canon
@@ -960,10 +965,10 @@ def _cache_key(rel, src_digest):
     h = hashlib.sha256()
     h.update(_code_hash.encode())
     h.update(src_digest.encode())
-    p = os.path.join(REFDIR, rel)
-    if os.path.exists(p):
-        with open(p, "rb") as f:
-            h.update(f.read())
+    if rel not in _ref_raw:
+        reference_tree(rel, None)
+    if _ref_raw.get(rel) is not None:
+        h.update(_ref_raw[rel])
     return h.hexdigest()[:32]
 
 
